@@ -19,7 +19,7 @@ CONFIGS = ['scipy', 'noscipy']
 BUDGET = {'quick': {'scipy': 800, 'noscipy': 32}, 'thorough': {'scipy': 20000, 'noscipy': 1200}}
 REQUIRED = ['curve:Q', 'curve:C', 'curve:A', 'curve:path', 's:boundary', 's:outside', 's:interior', 'scale>=1e5']
 CASE_TIMEOUT = 200
-TIME_LIMIT = {'quick': 280, 'thorough': 3300}
+TIME_LIMIT = {'quick': 280, 'thorough': 2400}
 
 EPS = 2.0 ** -52
 
